@@ -87,9 +87,13 @@ Step(e) ==
              THEN errs' = Err(e, "merge-panicked") /\ skip' = TRUE /\ UNCHANGED slots
              ELSE LET lens == LensOf(e.lens)
                       why == CodeDefect(lens, counts)
-                  IN  IF why = "ok"
+                      \* C08: with brand-new twins in place of the sources that had been cleared, the recorder's own second
+                      \* merge must yield a code for the same symbols
+                      whys == (IF why = "ok" THEN <<>> ELSE <<why>>) \o
+                              (IF ~e.fresh_same THEN <<"merge-over-cleared-differs-from-fresh">> ELSE <<>>)
+                  IN  IF whys = <<>>
                       THEN slots' = [slots EXCEPT ![e.d] = CodedSlot(lens)] /\ UNCHANGED <<skip, errs>>
-                      ELSE errs' = Err(e, why) /\ skip' = TRUE /\ UNCHANGED slots
+                      ELSE errs' = ErrAll(e, whys, errs) /\ skip' = TRUE /\ UNCHANGED slots
     [] e.ev = "copy" ->
          \* clone / clone_from: the destination becomes the source in every respect (mode, code, cursor,
          \* statistics, issued items); what the copy answers afterwards is judged like any container
